@@ -28,7 +28,7 @@ METHODS = ["TrustRegionReflection", "Dogbox", "Levenberg-Marquardt"]
 CORRUPT = 1000000
 PURE_INVARIANTS = ["TypeOK", "ShapesStable", "SchemeUntouched", "HistoryShape"]
 PURE_PROPERTIES = ["Pure", "InputsUntouched"]
-SCHEMES = ["lat-unlinked", "lat-linked", "decay-irf", "decay-2ds-linked", "fault-nnls"]
+SCHEMES = ["lat-unlinked", "lat-linked", "decay-irf", "decay-2ds-linked", "fault-nnls", "decay-free-inputs"]
 NAN_RAISES = {"decay-irf", "fault-nnls"}          # schemes whose fault group uses NNLS: a NaN matrix raises inside estimate()
 
 
